@@ -47,7 +47,7 @@ Definition edge_allowed (s : state) (o : op) (r : res) (v k : Z) (a : option sta
   end.
 
 Definition too_old (cfg : config) (s : state) (ih it : Z) : bool :=
-  ((c_ev_age_dur cfg <? st_time s - it) && (c_ev_age_blocks cfg <? st_height s - ih))%Z.
+  ((c_ev_age_dur cfg * NS <? st_time s - it) && (c_ev_age_blocks cfg <? st_height s - ih))%Z.
 
 Definition step_clauses (cfg : config) (g : ghost) (s s' : state) (o : op) (r : res) : list string :=
   let vals := st_vals s in let vals' := st_vals s' in
@@ -111,7 +111,7 @@ Definition step_clauses (cfg : config) (g : ghost) (s s' : state) (o : op) (r : 
          (if (st_time s <? zget t (g_until g))%Z then ["activate-early"] else []))%list
     | OUnjail t, ROk =>
         ((if ostatus_eqb (status_of vals t) SJailed then [] else ["unjail-not-jailed"]) ++
-         (if (zget t (g_jailt g) + c_unjail_max cfg <? st_time s)%Z then ["unjail-late"] else []))%list
+         (if (zget t (g_jailt g) + c_unjail_max cfg * NS <? st_time s)%Z then ["unjail-late"] else []))%list
     | OPause t, ROk => if ostatus_eqb (status_of vals t) SActive then [] else ["pause-not-active"]
     | OUnpause t, ROk => if ostatus_eqb (status_of vals t) SPaused then [] else ["unpause-not-paused"]
     | _, _ => []
@@ -176,7 +176,7 @@ Definition ghost_next (cfg : config) (g : ghost) (s s' : state) (o : op) (r : re
     match b with
     | SJailed => mkG4 a (g_run a) (zset v (st_time s) (g_jailt a)) (g_until a) (sadd v (g_held a))
     | SInactive => match o with
-                   | OVotes _ => mkG4 a (g_run a) (g_jailt a) (zset v (st_time s + c_downtime cfg)%Z (g_until a)) (g_held a)
+                   | OVotes _ => mkG4 a (g_run a) (g_jailt a) (zset v (st_time s + c_downtime cfg * NS)%Z (g_until a)) (g_held a)
                    | _ => a end
     | SActive => mkG4 a (g_run a) (g_jailt a) (g_until a) (sdel v (g_held a))   (* an escape is reported once *)
     | _ => a
